@@ -94,6 +94,22 @@ pub fn run(p: &Params) -> Run {
         }).collect();
         one_case(&mut run, &sch.defs, &text, true, &lines);
     }
+    // third stream: a split table admits the EMPTY line (field 0 is the empty TEXT), so "the first k lines" must
+    // count empty lines in batch mode exactly as the line-at-a-time engine does
+    const SPLIT_DEF: &str = "CREATE TABLE s(line = split ';', line[0] => a TEXT, line[1] => b TEXT, line[2] => n INT);";
+    const SPLIT_QUERIES: &[&str] = &["SELECT a, b FROM s", "SELECT input FROM s", "SELECT DISTINCT a FROM s", "SELECT COUNT(*) FROM s", "SELECT a, COUNT(*), SUM(n) FROM s GROUP BY a",
+        "SELECT COUNT(b), MAX(n) FROM s", "SELECT a, COUNT(*) FROM s GROUP BY a HAVING COUNT(*) > 1", "SELECT * FROM s WHERE b IS NULL"];
+    let m3 = p.n(120, 4_000);
+    for _ in 0..m3 {
+        let nl = 1 + rng.below(8);
+        let lines: Vec<String> = (0..nl).map(|_| match rng.below(6) {
+            0 | 1 => String::new(),
+            2 => (*rng.pick(&[";", ";;", " ", ";x"])).to_owned(),
+            _ => format!("{};{};{}", rng.pick(&["a", "b", ""]), rng.pick(&["x", "", "y"]), rng.below(5)),
+        }).collect();
+        let q = *rng.pick(SPLIT_QUERIES);
+        one_case(&mut run, SPLIT_DEF, q, !q.starts_with("SELECT a, b") && !q.starts_with("SELECT input") && !q.starts_with("SELECT DISTINCT") && !q.starts_with("SELECT *"), &lines);
+    }
     run.notes.push("statements without LIMIT (SELECT and aggregate, DISTINCT, HAVING) fed line by line with the default config; every prefix compared with a fresh batch run".to_owned());
     run
 }
